@@ -5,6 +5,7 @@ Import ListNotations.
 From JB Require Import Constants Bytes Utf8 Num Value Codec Order OrderProofs CodecProofs RoundtripProofs TreeOps JsonText Dispatch
   DispatchProofs TreeWf TreeWf2 Walk WalkProofs Iter IterProofs Builder BuilderProofs EditWalk2.
 From JB Require I32.
+From JB Require Import BufSt EditStProofs.
 Open Scope N_scope.
 Set Default Timeout 120.
 
@@ -128,7 +129,7 @@ Lemma object_filter_obj keep o buf : wfb (VObj o) = true ->
   object_filter_b keep (enc (VObj o)) buf = Ok (buf ++ enc (VObj (filter (fun kv => keep (fst kv)) o))).
 Proof.
   intros Hw. destruct (obj_ok_of_wf o Hw) as [Ho Hn]. destruct (obj_hdr_facts o Hn) as (_ & HT & _).
-  unfold object_filter_b. rewrite enc_obj.
+  rewrite ?object_filter_b_eq. rewrite enc_obj.
   rewrite <- (app_nil_r (payload (VObj o))). rewrite (read_hdr_obj0 o [] Hn), HT, N.eqb_refl. cbn [negb].
   rewrite (iterate_object_entries_obj _ _ o [] [] Ho Hn).
   pose proof (filter_fold keep o (obj_sorted o Hw) o [] eq_refl) as F. unfold filter_step in F.
@@ -140,7 +141,7 @@ Qed.
 Lemma object_filter_nonobj keep v buf : wfb v = true -> match v with VObj _ => False | _ => True end ->
   object_filter_b keep (enc v) buf = Err EInvalidObject.
 Proof.
-  intros Hw Hv. unfold object_filter_b. destruct v as [|b|s|n|l|o]; try contradiction;
+  intros Hw Hv. rewrite ?object_filter_b_eq. destruct v as [|b|s|n|l|o]; try contradiction;
     try (rewrite read_hdr_scalar by reflexivity; rewrite (proj1 scalar_hdr_type); reflexivity).
   destruct (wf_arr l Hw) as [_ Hn]. destruct (arr_hdr_facts l Hn) as (_ & HT & _).
   rewrite enc_arr, <- (app_nil_r (payload (VArr l))), (read_hdr_arr0 l [] Hn), HT, arr_type_not_obj. reflexivity.
@@ -149,13 +150,13 @@ Qed.
 Theorem object_delete_b_enc v ks buf : wfb v = true ->
   object_delete_b (enc v) ks buf = res_map (fun y => buf ++ enc y) (object_delete_t v ks).
 Proof.
-  intros Hw. unfold object_delete_b. destruct v as [|b|s|n|l|o]; try (apply object_filter_nonobj; [exact Hw|exact I]).
+  intros Hw. rewrite ?object_delete_b_eq. destruct v as [|b|s|n|l|o]; try (apply object_filter_nonobj; [exact Hw|exact I]).
   rewrite (object_filter_obj _ o buf Hw). reflexivity.
 Qed.
 Theorem object_pick_b_enc v ks buf : wfb v = true ->
   object_pick_b (enc v) ks buf = res_map (fun y => buf ++ enc y) (object_pick_t v ks).
 Proof.
-  intros Hw. unfold object_pick_b. destruct v as [|b|s|n|l|o]; try (apply object_filter_nonobj; [exact Hw|exact I]).
+  intros Hw. rewrite ?object_pick_b_eq. destruct v as [|b|s|n|l|o]; try (apply object_filter_nonobj; [exact Hw|exact I]).
   rewrite (object_filter_obj _ o buf Hw). reflexivity.
 Qed.
 
@@ -164,10 +165,10 @@ Proof. intros Hw Ht. unfold as_jsonb. rewrite (is_jsonb_enc v Hw Ht). reflexivit
 
 Theorem object_delete_w_enc v ks buf : wfb v = true -> top_ok v ->
   object_delete_w (enc v) ks buf = res_map (fun y => buf ++ enc y) (object_delete_t v ks).
-Proof. intros Hw Ht. unfold object_delete_w. rewrite (as_jsonb_enc v Hw Ht). cbn [bind]. apply object_delete_b_enc. exact Hw. Qed.
+Proof. intros Hw Ht. rewrite ?object_delete_w_eq. rewrite (as_jsonb_enc v Hw Ht). cbn [bind]. apply object_delete_b_enc. exact Hw. Qed.
 Theorem object_pick_w_enc v ks buf : wfb v = true -> top_ok v ->
   object_pick_w (enc v) ks buf = res_map (fun y => buf ++ enc y) (object_pick_t v ks).
-Proof. intros Hw Ht. unfold object_pick_w. rewrite (as_jsonb_enc v Hw Ht). cbn [bind]. apply object_pick_b_enc. exact Hw. Qed.
+Proof. intros Hw Ht. rewrite ?object_pick_w_eq. rewrite (as_jsonb_enc v Hw Ht). cbn [bind]. apply object_pick_b_enc. exact Hw. Qed.
 
 (* ================================================================ object_insert *)
 (* where the new key goes: the members below it, and the rest *)
@@ -368,7 +369,7 @@ Lemma object_insert_obj o x key upd buf : wfb (VObj o) = true -> wf_size x = tru
 Proof.
   intros Hw Hx Hres. destruct (obj_ok_of_wf o Hw) as [Ho Hn]. destruct (obj_hdr_facts o Hn) as (_ & HT & HL).
   pose proof (obj_sorted o Hw) as So.
-  unfold object_insert_b. rewrite enc_obj.
+  rewrite ?object_insert_b_eq. rewrite enc_obj.
   rewrite <- (app_nil_r (payload (VObj o))). rewrite (read_hdr_obj0 o [] Hn), HT, N.eqb_refl, HL. cbn [negb].
   rewrite (iterate_object_keys_obj _ _ o [] _ Ho Hn).
   rewrite (ins_keys_fold key upd o 0). cbn [Nat.add].
@@ -418,7 +419,7 @@ Qed.
 Lemma object_insert_nonobj v x key upd buf : wfb v = true -> match v with VObj _ => False | _ => True end ->
   object_insert_b (enc v) key (enc x) upd buf = Err EInvalidObject.
 Proof.
-  intros Hw Hv. unfold object_insert_b. destruct v as [|b|s|n|l|o]; try contradiction;
+  intros Hw Hv. rewrite ?object_insert_b_eq. destruct v as [|b|s|n|l|o]; try contradiction;
     try (rewrite read_hdr_scalar by reflexivity; rewrite (proj1 scalar_hdr_type); reflexivity).
   destruct (wf_arr l Hw) as [_ Hn]. destruct (arr_hdr_facts l Hn) as (_ & HT & _).
   rewrite enc_arr, <- (app_nil_r (payload (VArr l))), (read_hdr_arr0 l [] Hn), HT, arr_type_not_obj. reflexivity.
@@ -436,7 +437,7 @@ Theorem object_insert_w_enc v x key upd buf : wfb v = true -> top_ok v -> wfb x 
   (forall y, object_insert_t v key x upd = Ok y -> wf_size y = true) ->
   object_insert_w (enc v) key (enc x) upd buf = res_map (fun y => buf ++ enc y) (object_insert_t v key x upd).
 Proof.
-  intros Hw Ht Hx Htx Hres. unfold object_insert_w. rewrite (as_jsonb_enc v Hw Ht), (as_jsonb_enc x Hx Htx). cbn [bind].
+  intros Hw Ht Hx Htx Hres. rewrite ?object_insert_w_eq. rewrite (as_jsonb_enc v Hw Ht), (as_jsonb_enc x Hx Htx). cbn [bind].
   apply object_insert_b_enc; [exact Hw|apply wfb_size; exact Hx|exact Hres].
 Qed.
 
@@ -655,7 +656,7 @@ Qed.
 Theorem strip_nulls_b_enc v buf : wfb v = true -> strip_nulls_b (enc v) buf = Ok (buf ++ enc (strip_nulls_t v)).
 Proof.
   intros Hw. pose proof (proj1 (strip_size v (wfb_size v Hw))) as Hs. pose proof (sn_entry_item v Hs) as [EI OK].
-  unfold strip_nulls_b. destruct v as [|b|s|n|l|o];
+  rewrite ?strip_nulls_b_eq. destruct v as [|b|s|n|l|o];
     try (rewrite read_hdr_scalar by reflexivity; destruct scalar_hdr_type as [T1 T2]; rewrite T1, T2; reflexivity).
   - destruct (wf_arr l Hw) as [Hall Hn]. destruct (arr_hdr_facts l Hn) as (_ & HT & _).
     rewrite enc_arr. rewrite <- (app_nil_r (payload (VArr l))). rewrite (read_hdr_arr0 l [] Hn), HT, arr_type_not_obj, N.eqb_refl.
@@ -680,7 +681,7 @@ Proof.
 Qed.
 
 Theorem strip_nulls_w_enc v buf : wfb v = true -> top_ok v -> strip_nulls_w (enc v) buf = Ok (buf ++ enc (strip_nulls_t v)).
-Proof. intros Hw Ht. unfold strip_nulls_w. rewrite (is_jsonb_enc v Hw Ht). apply strip_nulls_b_enc. exact Hw. Qed.
+Proof. intros Hw Ht. rewrite ?strip_nulls_w_eq. rewrite (is_jsonb_enc v Hw Ht). apply strip_nulls_b_enc. exact Hw. Qed.
 
 (* ================================================================ delete_by_keypath *)
 (* what a nested call must answer: nothing to do, or a builder entry that denotes the edited child *)
@@ -1046,7 +1047,7 @@ Theorem delete_by_keypath_b_enc v ks buf : wfb v = true ->
   (forall y, delete_by_keypath_t v ks = Ok y -> wf_size y = true) ->
   delete_by_keypath_b (enc v) ks buf = res_map (fun y => buf ++ enc y) (delete_by_keypath_t v ks).
 Proof.
-  intros Hw Hres. unfold delete_by_keypath_b. destruct v as [|b|s|n|l|o];
+  intros Hw Hres. rewrite ?delete_by_keypath_b_eq. destruct v as [|b|s|n|l|o];
     try (rewrite read_hdr_scalar by reflexivity; destruct scalar_hdr_type as [T1 T2]; rewrite T1, T2; reflexivity).
   - destruct (wf_arr l Hw) as [Hall Hn]. destruct (arr_hdr_facts l Hn) as (_ & HT & _).
     assert (R : read_u32 (payload (VArr l)) 0 = Some (arr_hdr l))
@@ -1088,7 +1089,7 @@ Theorem delete_by_keypath_w_enc v ks buf : wfb v = true -> top_ok v ->
   (forall y, delete_by_keypath_t v ks = Ok y -> wf_size y = true) ->
   delete_by_keypath_w (enc v) ks buf = res_map (fun y => buf ++ enc y) (delete_by_keypath_t v ks).
 Proof.
-  intros Hw Ht Hres. unfold delete_by_keypath_w. rewrite (is_jsonb_enc v Hw Ht). apply delete_by_keypath_b_enc; assumption.
+  intros Hw Ht Hres. rewrite ?delete_by_keypath_w_eq. rewrite (is_jsonb_enc v Hw Ht). apply delete_by_keypath_b_enc; assumption.
 Qed.
 
 (* ---- deleting never grows a document: the size hypothesis above always holds ---- *)
